@@ -1172,6 +1172,108 @@ def check(ctx):
                         compare_grid(ctx, a1, exp, (state["time_to_maturity"] > 0) & (state["volatility"] > 0), case | {"method": what},
                                      f"bs_module:{option}:call-flag:{what}",
                                      f"the module built from {option}(underlier, call={form}({b})) differs from the functional form with call={b} at the simulated state")
+    # (i) results of the accessors of the simulated state MODIFIED IN PLACE by the caller (round 7).  derivative.moneyness / log_moneyness /
+    #   max_moneyness / max_log_moneyness / time_to_maturity (time_step None and given, log False / True) and underlier.volatility hand
+    #   out results computed from the simulated state (on the unchanged code none of them is the buffer: underlier.spot and Heston's
+    #   variance ARE the buffers and are not part of this class).  A caller that post-processes such a result in place (percent, excess
+    #   over 1, log, clamp, ...) works on its own tensor: the module built from the derivative (the accessor's derivative itself, or a
+    #   sibling derivative on the same underlier) must afterwards still quote the functional form at the state that was SIMULATED — formed
+    #   here from copies of the buffers taken before the accessor was called — and the same call goes to the model of the resolution
+    #   layer (op bs_module, market = the copies).  Strike exactly 1.0 and another strike for every option type on every tier and seed.
+    ACCESSORS = [(nm_, ts_, lg_) for ts_ in (False, True) for nm_, lgs_ in (("moneyness", (False, True)), ("log_moneyness", (None,)),
+                 ("max_moneyness", (False, True)), ("max_log_moneyness", (None,)), ("time_to_maturity", (None,))) for lg_ in lgs_]
+    ACCESSORS.append(("ul().volatility", False, None))
+    INPLACE = {"mul_(100.0)": lambda r: r.mul_(100.0), "sub_(1.0)": lambda r: r.sub_(1.0), "log_()": lambda r: r.log_(), "zero_()": lambda r: r.zero_(),
+               "neg_()": lambda r: r.neg_(), "exp_()": lambda r: r.exp_(), "r *= 100": lambda r: r.__imul__(100), "r[...] = 2.5": lambda r: r.__setitem__(..., 2.5),
+               "add_(0.75)": lambda r: r.add_(0.75), "clamp_(max=0.25)": lambda r: r.clamp_(max=0.25)}
+    scen_i = [(o_, unit_, "own") for o_ in OPTION_TYPES for unit_ in (True, False)]
+    scen_i += [(g.choice(OPTION_TYPES), g.chance(0.5), g.choice(["own", "sibling", "sibling"])) for _ in range(4 if q_ else 60)]
+    for i_i, (option, unit, via) in enumerate(scen_i):
+        pd = option in ("LookbackOption", "AmericanBinaryOption")
+        call = True if pd else g.chance(0.5)
+        K = 1.0 if unit else g.choice([0.9, 1.1, 1.25, 2.0, round(g.r.uniform(0.8, 1.3), 2)])
+        primary = g.choice(["BrownianStock", "BrownianStock", "HestonStock"])
+        sigma, dt, steps, n_paths = g.choice([0.1, 0.2, 0.3, 0.5]), g.choice([1 / 50, 1 / 250, 1 / 100]), g.choice([3, 4, 6]), g.choice([1, 2, 3])
+        u = pin.HestonStock(dt=dt, dtype=torch.float64) if primary == "HestonStock" else pin.BrownianStock(sigma=sigma, dt=dt, dtype=torch.float64)
+        d = getattr(pin, option)(u, call=call, strike=K, maturity=steps * dt)
+        if via == "sibling":      # another derivative on the same underlier (it shares the simulated state)
+            K2 = g.choice([1.0, 1.0, K, 1.2])
+            src = getattr(pin, g.choice(OPTION_TYPES))(u, strike=K2, maturity=steps * dt)
+        else:
+            K2, src = K, d
+        for _try in range(8):
+            tseed = g.randint(0, 2 ** 31 - 1)
+            torch.manual_seed(tseed)
+            d.simulate(n_paths=n_paths)
+            spot0 = u.spot.detach().clone()
+            var0 = u.variance.detach().clone() if primary == "HestonStock" else None
+            vol0 = var0.clamp(min=0.0).sqrt() if primary == "HestonStock" else torch.full_like(spot0, sigma)
+            if bool(((spot0 / K).log().abs() <= 1.0).all()) and bool((vol0 > 0).all()) and bool((vol0 <= 2.0).all()):
+                break
+        else:
+            raise InternalError(f"scenario construction: no simulated state of {primary} inside the box")
+        N, T = spot0.shape
+        state = derivative_state(torch, spot0, vol0, K, dt)
+        valid = (state["time_to_maturity"] > 0) & (state["volatility"] > 0)
+        markets = [{"spot": enc_flt(spot0[p_].tolist()), "variance": enc_flt((vol0[p_] * vol0[p_]).tolist()), "volatility": enc_flt(vol0[p_].tolist()),
+                    "listed": enc_flt(spot0[p_].tolist()), "dt": float_bits(dt), "strike": float_bits(K), "oracle": enc_flt([0.0] * T)}
+                   for p_ in range(N)]
+        case0 = {"option": option, "primary": primary, "call": call, "strike": K, "dt": dt, "n_paths": N, "torch_seed": tseed,
+                 "accessor_of": via if via == "own" else {"sibling": type(src).__name__, "strike": K2}, "spot": spot0.tolist(), "volatility": vol0.tolist()}
+        mods = {}
+        for how in ("BlackScholes", "from_derivative"):
+            st, mod, _ = call_impl(build_module, how, option, d)
+            if st != "ok":
+                ctx.fail("building the pricing module from a derivative raised", case0 | {"built": how}, key=f"bs_module:{option}:construct:error", detail=mod)
+            else:
+                mods[how] = mod
+        if len(mods) < 2:
+            continue
+        for nm_, with_ts, lg_ in ACCESSORS:
+            ts_ = g.randint(0, T - 1) if with_ts else None
+            op_ = g.choice(sorted(INPLACE))
+            how, what = g.choice(["BlackScholes", "from_derivative"]), g.choice(["price", "price", "delta"])
+            label = nm_ + ("" if nm_.startswith("ul()") else "(" + ", ".join(([f"time_step={ts_}"] if with_ts else []) + ([f"log={lg_}"] if lg_ is not None else [])) + ")")
+            case = case0 | {"accessor": label, "caller_then": op_, "built": how, "method": what}
+            ctx.case(case, True, tag="module_accessor_result_modified")
+            ctx.stats[f"accessor-modified:{nm_}"] += 1
+            ctx.traces += 1
+            try:
+                if nm_.startswith("ul()"):
+                    res = src.ul().volatility
+                else:
+                    res = getattr(src, nm_)(**({"time_step": ts_} if with_ts else {}) | ({"log": lg_} if lg_ is not None else {}))
+            except Exception as e:  # noqa
+                ctx.fail(f"derivative.{label} raised on a simulated derivative", case, key=f"derivative:{nm_}:error", detail=repr(e)[:200])
+                continue
+            try:
+                INPLACE[op_](res)
+                ctx.stats["accessor-modified:in-place-done"] += 1
+            except RuntimeError:      # an expanded result (time to maturity of several paths) refuses in-place writes: nothing was modified
+                ctx.stats["accessor-modified:in-place-refused"] += 1
+            changed = [b_ for b_, ref_ in (("spot", spot0), ("variance", var0)) if ref_ is not None and not eq_bits(u.get_buffer(b_), ref_)]
+            mod = mods[how]
+            st, got, mut = call_impl(getattr(mod, what), watch=[("derivative", d)])
+            if mut:
+                ctx.mutated(f"BSModule.{what}", mut, case)
+            if g.chance(0.4):
+                rst, rres, _ = call_impl(acquire_fn(pd), derivative=getattr(mod, "derivative", None))
+                tie.add(case, option, what, "from_derivative", N, T, markets, {"call": call, "simulated": True, "has_vol": True}, None, {},
+                        ("ok", getattr(mod, "call", None), getattr(mod, "strike", float("nan"))), (rst, rres), (st, got))
+            why = (f"after the caller modified the RESULT of {'the sibling derivative ' + type(src).__name__ + '(strike=' + str(K2) + ') on the same underlier' if via != 'own' else 'derivative'}"
+                   f".{label} in place ({op_}), module.{what}() of the module built from the derivative ")
+            if st != "ok":
+                ctx.fail(why + "raised: the accessor's result aliases the simulated state", case, key=f"bs_module:{option}:accessor-result-modified:{nm_}:error",
+                         detail={"error": got, "buffers_rewritten": changed})
+            else:
+                compare_grid(ctx, got, functional_at(torch, option, what, state, K, call), valid, case | {"buffers_rewritten": changed},
+                             f"bs_module:{option}:accessor-result-modified:{nm_}",
+                             why + "differs from the functional form at the state that was simulated (copies of the buffers taken before): "
+                             "the accessor's result aliases the simulated state and the module prices the caller's numbers")
+            if changed:       # the next accessor starts from the simulated state again
+                u.register_buffer("spot", spot0.clone())
+                if var0 is not None:
+                    u.register_buffer("variance", var0.clone())
     try:
         mv3 = model_vals(ctx, items3)
     except DriverBroken as e:
@@ -1196,7 +1298,10 @@ def check(ctx):
              "longer horizon / by a longer-dated derivative, registered series longer than the maturity) priced without an explicit time_to_maturity against the "
              "functional form at the grid-based time, the integrated expected payoff and the model of the resolution layer; call/put flags given as numpy.bool_ / int / "
              "0-dim bool tensor to every functional form with a call parameter, every BS module (price and Greeks) and every derivative (payoff, module built from it), "
-             "bitwise against the Python bool, the model and the functional form; numerical-integration oracle on a subsample; "
+             "bitwise against the Python bool, the model and the functional form; results of the derivative's accessors (moneyness / log_moneyness / max_moneyness / "
+             "max_log_moneyness / time_to_maturity with time_step None and given, log False / True; underlier.volatility; own derivative or a sibling on the same underlier; "
+             "strike exactly 1.0 and other strikes) modified in place by the caller, then the module built from the derivative against the functional form at copies of the "
+             "simulated buffers taken before and the model of the resolution layer; numerical-integration oracle on a subsample; "
              "every case non-trivial; distinct = sha1 of canonical case",
         explanation="European and European-binary prices: equality with the defining expectation is a theorem (Props/C07). American binary and lookback: "
                     "the expectation identity is NOT proved (no Brownian-motion/reflection principle in Mathlib) — partial; validated numerically by the "
